@@ -405,12 +405,13 @@ func (m *monitor) run() {
 		}
 		// R2: secondaries only after the primary commit succeeded (not for async commit)
 		if !v.async {
-			var primaryOK uint64
+			var primaryOK, primaryTS uint64
 			for _, c := range v.commits {
 				creq := c.Req.Req.(*kvrpcpb.CommitRequest)
 				if containsKey(creq.Keys, v.primary) && succeeded(c) {
 					if primaryOK == 0 || c.DoneSeq < primaryOK {
 						primaryOK = c.DoneSeq
+						primaryTS = creq.CommitVersion
 					}
 				}
 			}
@@ -420,6 +421,9 @@ func (m *monitor) run() {
 					continue
 				}
 				m.hit("R2-primary-first")
+				if primaryOK != 0 && creq.CommitVersion != primaryTS {
+					m.fail("R2-secondary-commit-ts", sig, "txn %d: a secondary Commit (keys %q) carries commit ts %d, the primary was committed at %d", ts, creq.Keys, creq.CommitVersion, primaryTS)
+				}
 				if primaryOK == 0 || primaryOK > c.SubmitSeq {
 					m.fail("R2-primary-first", sig, "txn %d: a secondary Commit (keys %q) was issued at event %d before the primary %q commit had succeeded (primary ok at %d)", ts, creq.Keys, c.SubmitSeq, v.primary, primaryOK)
 				}
@@ -550,7 +554,7 @@ func (m *monitor) run() {
 			}
 		}
 		// R9: prewritten mutations = the buffer
-		if h != nil && h.Buf != nil {
+		if h != nil && h.Buf != nil && !h.UsedAggressive {
 			m.checkMutations(h, v, sig)
 		}
 	}
